@@ -115,60 +115,89 @@ def _capture_fn(lib):
     raise AnchorLost("capture function (state, source, error) not found")
 
 
-def _custom_sites(lib, trait):
+def _custom_sites(lib, trait, file):
+    """Every `<trait>::custom(..)` call in the transcoder's source file (whatever its text): these are the
+    synthetic errors that stand in for a failure of the other side."""
     out = []
     for b in lib.bodies:
+        if b.file != file:
+            continue
         for bb, t in b.calls():
             f = fn_of(t) or {}
-            if f.get("trait") == trait and f.get("name") == "custom" and t["args"]:
-                tr = trace(b, t["args"][0])
-                if tr.origin and tr.origin[0] == "const" and tr.origin[1].get("str") == TEXT:
-                    out.append((b, bb, t))
+            if f.get("trait") == trait and t["args"] and not b.local_ty(t["dest"]["l"]).startswith("&"):
+                # custom(..) and the other constructors of the trait (invalid_type, invalid_length, ..)
+                out.append((b, bb, t))
     return out
 
 
-@rule("R11.2", 7, "every synthetic 'translation failed' deserializer error is created under a capture with constant source Ser (and the synthetic serializer error under the deserializer's source)", ["C11"])
+def _lift(lib, b, bb):
+    """A site inside a closure is judged where the closure is handed to a combinator: returns
+    (parent body, call block, call terminator) or (b, bb, None)."""
+    if b.raw["def_kind"] != "Closure":
+        return b, bb, None
+    for pb in lib.bodies:
+        for pbb, pt in pb.calls():
+            if b.id in (fn_of(pt) or {}).get("closures", []):
+                return pb, pbb, pt
+    return b, bb, None
+
+
+RUNS_ON_NONE = ("std::option::Option::<T>::unwrap_or_else", "std::option::Option::<T>::or_else", "std::option::Option::<T>::ok_or_else", "std::option::Option::<T>::map_or_else")
+
+
+@rule("R11.2", 3, "every synthetic deserializer error is created under a capture with constant source Ser (and the synthetic serializer error under the deserializer's source)", ["C11"])
 def r11_2(ctx):
     lib = ctx.lib
     cap, st, src_enum = _capture_fn(lib)
-    de_sites = _custom_sites(lib, "serde::de::Error")
-    ser_sites = _custom_sites(lib, "serde::ser::Error")
+    de_sites = _custom_sites(lib, "serde::de::Error", cap.file)
+    ser_sites = _custom_sites(lib, "serde::ser::Error", cap.file)
     seen = {}
-    for b, bb, t in de_sites:
-        caps = [(cb, ct) for cb, ct in b.calls() if ((fn_of(ct) or {}).get("resolved") or (fn_of(ct) or {}).get("def")) == cap.id and b.dominates(cb, bb) and cb != bb]
+
+    def is_cap(ct):
+        return ((fn_of(ct) or {}).get("resolved") or (fn_of(ct) or {}).get("def")) == cap.id
+
+    for b0, bb0, t in de_sites:
+        b, bb, via = _lift(lib, b0, bb0)
+        caps = [(cb, ct) for cb, ct in b.calls() if is_cap(ct) and b.dominates(cb, bb) and cb != bb]
         k = f"{b.raw.get('impl_self_adt', '').rsplit('::', 1)[-1]}::{b.name}"
         seen[k] = seen.get(k, 0) + 1
         key = f"de-custom:{k}:{seen[k] - 1}"
         if not caps:
-            ctx.ob(key, False, site(b, bb), "synthetic deserializer error created without capturing the serializer's error first")
+            ctx.ob(key, False, site(b0, bb0), "synthetic deserializer error created without capturing the serializer's error first")
             continue
         # closest dominating capture
         cb, ct = max(caps, key=lambda x: len(b.dominators()[x[0]]))
         ok = _is_ser(lib, src_enum, b, ct["args"][1])
-        ctx.ob(key, ok, site(b, bb), "the serializer's error is captured with source Ser before unwinding through the deserializer" if ok else
+        ctx.ob(key, ok, site(b0, bb0), "the serializer's error is captured with source Ser before unwinding through the deserializer" if ok else
                "the capture before this synthetic error records a non-constant / deserializer source: the serializer's reason is dropped from the final message")
-    for b, bb, t in ser_sites:
-        caps = [(cb, ct) for cb, ct in b.calls() if ((fn_of(ct) or {}).get("resolved") or (fn_of(ct) or {}).get("def")) == cap.id and b.dominates(cb, bb) and cb != bb]
+    for b0, bb0, t in ser_sites:
+        b, bb, via = _lift(lib, b0, bb0)
+        caps = [(cb, ct) for cb, ct in b.calls() if is_cap(ct) and b.dominates(cb, bb) and cb != bb]
         ok = False
         det = "synthetic serializer error without a capture"
         for cb, ct in caps:
             sv = trace(b, ct["args"][1])
             if sv.origin and sv.origin[0] == "call" and (fn_of(sv.origin[2]) or {}).get("impl_self_adt") == st:
-                # source of state X; the site must lie on the None edge of X.into_error()
-                x = trace(b, sv.origin[2]["args"][0])
+                # source of state X; the site must run only when X.into_error() is None
                 for ib, it in b.calls():
                     fi = fn_of(it) or {}
-                    if fi.get("impl_self_adt") == st and b.local_ty(it["dest"]["l"]).startswith("std::option::Option<"):
-                        sw = b.blocks[it["target"]]["term"]
-                        if sw["k"] == "switch":
-                            z = [y for v, y in sw["targets"] if v == 0]
-                            if z and b.edge_dominates(it["target"], 0, z[0], bb):
-                                ok = True
-                                det = "created only when the visitor captured no serializer error (source is then the deserializer)"
+                    if not (fi.get("impl_self_adt") == st and b.local_ty(it["dest"]["l"]).startswith("std::option::Option<")):
+                        continue
+                    if via is not None and (fn_of(via) or {}).get("def") in RUNS_ON_NONE:
+                        r = trace(b, via["args"][0])
+                        if r.origin and r.origin[0] == "call" and r.origin[2] is it and all(s_[0] == "use" for s_ in r.steps):
+                            ok = True
+                    sw = b.blocks[it["target"]]["term"]
+                    if sw["k"] == "switch":
+                        z = [y for v, y in sw["targets"] if v == 0]
+                        if z and b.edge_dominates(it["target"], 0, z[0], bb):
+                            ok = True
+                    if ok:
+                        det = "created only when the visitor captured no serializer error (source is then the deserializer)"
             elif _is_ser(lib, src_enum, b, ct["args"][1]):
                 det = "capture before a synthetic *serializer* error claims the serializer as source"
-        ctx.ob(f"ser-custom:{b.name}", ok, site(b, bb), det)
-    ctx.ob("sites-counted", len(de_sites) >= 6 and len(ser_sites) >= 1, "lib", f"{len(de_sites)} de::Error::custom and {len(ser_sites)} ser::Error::custom site(s) with the text {TEXT!r}")
+        ctx.ob(f"ser-custom:{b.name}", ok, site(b0, bb0), det)
+    ctx.ob("sites-counted", len(de_sites) >= 1 and len(ser_sites) >= 1, "lib", f"{len(de_sites)} de::Error::custom and {len(ser_sites)} ser::Error::custom site(s) in {cap.file}")
 
 
 @rule("R11.3", 6, "top level keeps both sides: Ser arm builds (serializer error, deserializer error); Display prints both; outputs box the error unchanged", ["C11"])
